@@ -81,8 +81,12 @@ package database
 // arguments and of the immutable command list); their tables are the mechanism, not re-specified.
 //@ func isPlatformCompatible
 //@   pure
+// a recognised cross-platform tool: the command IS a listed tool or starts with one followed by a space
 //@ func isCrossPlatformTool
 //@   pure
+//@   ensures[C04.tool-rule] result <==> (exists t string :: (t in crossPlatformTools) && (strings.ToLower(command) == t || strings.HasPrefix(strings.ToLower(command), t + " ")))
+//@ loop 1
+//@   invariant forall t string :: (t in $visited) ==> !(strings.ToLower(command) == t || strings.HasPrefix(strings.ToLower(command), t + " "))
 //@ func isPipelineCommand
 //@   requires cmd != nil
 //@   pure
